@@ -577,6 +577,18 @@ func genC17(g *G) {
 		}
 		g.Emit(J{"op": "json.unpack", "msg": J{"configDigest": cd, "seqNr": S(cdcRndU64(g)), "report": hexs(b), "sigs": sigs}}, ptag)
 	}
+	// ---- reports of 30 … 60 KB in a row (a pooled encode buffer grows through the sizes a pool's cut-off would use;
+	// each returned encoding is held while the next report is encoded)
+	for _, n := range []int{300, 550, 650, 830, 650, 770, 920, 620, 970, 640, 950} { // ≈ 65 bytes a value: 20 … 63 KB
+		vals := make([]any, n)
+		for k := range vals {
+			vals[k] = svJ(&llo.Quote{Bid: decimal.New(int64(100000+k), -2), Benchmark: decimal.New(int64(100100+k), -2), Ask: decimal.New(int64(100200+k), -2)})
+		}
+		digest := make([]byte, 32)
+		g.R.Read(digest)
+		g.Emit(J{"op": "json.encode", "digest": hexs(digest), "report": J{"seqNr": S(1 + cdcRndU64(g)%1000), "channelID": S(cdcRndU32(g)), "validAfter": S(cdcRndU64(g)), "obsTs": S(cdcRndU64(g)), "values": vals, "specimen": false}},
+			"json-encode", "json-tens-of-kilobytes")
+	}
 	// ---- sizes exactly at the documented limits: a full channel (MaxStreamsPerChannel values) and a report of MaxReportLength bytes
 	for _, n := range []int{llo.MaxStreamsPerChannel - 1, llo.MaxStreamsPerChannel} {
 		vals := make([]any, n)
